@@ -291,5 +291,30 @@ def run_cell(cell, seed):
                     fails.append({"sub": "source-prediction", "symptom": f"source {name} changed after fantasising: err={msg}", "detail": "", "features": feats})
         except Exception as e:
             fails.append({"sub": "source-prediction", "symptom": "source model cannot predict after fantasising: " + util.exc_str(e), "detail": "", "features": feats})
+        # the fantasy model is a model of its own: a FRESH fantasy model (no prediction made yet), then a change of the SOURCE's
+        # hyperparameters, then the fantasy model's first prediction - it must be what it would have been without the change
+        if sig != "raises" and not fails:
+            try:
+                g2 = util.gen(seed, "c04ind|" + util.jdump(cell))
+                tb = fb + mb
+                ib = () if fbp == "unbatched_inputs" else (mb if fbp == "shared" else tb)
+                Xf = util.rand(g2, *ib, q, d)
+                yf = util.randn(g2, *tb, q, 2) if mt else util.randn(g2, *tb, q)
+                kw = {"noise": 0.05 + 0.2 * util.rand(g2, *(tb if fbp == "unbatched_inputs" else ib), q)} if fam.startswith("fixednoise") else {}
+                xf = Xf.squeeze(-1) if cell.get("form") == "vec" else Xf
+                with ctx(cell["post"]):
+                    fa = src.get_fantasy_model(xf, yf, **kw, **FWD_KW.get(fam, {}))
+                    fb_ = src.get_fantasy_model(xf, yf, **kw, **FWD_KW.get(fam, {}))
+                want = predict(fa, Xs, cell["post"])          # predicted BEFORE the source changes
+                models.perturb_(src, seed, "c04-source-moves-on")
+                got = predict(fb_, Xs, cell["post"])          # first prediction AFTER the source changed
+                ops += 4
+                for name, a, b in zip(("mean", "covariance"), got, want):
+                    ok, msg = util.close(a, b, tol, tol)
+                    if not ok:
+                        fails.append({"sub": "fantasy-independent", "symptom": f"fantasy {name} depends on hyperparameter changes made to the SOURCE model after "
+                                      f"get_fantasy_model: err={msg}", "detail": "", "features": feats})
+            except Exception as e:
+                fails.append({"sub": "fantasy-independent", "symptom": util.exc_str(e), "detail": "", "features": feats})
     return {"fails": fails, "sig": sig + ":" + ",".join(sorted({f["sub"] for f in fails})), "ops": ops, "features": feats,
             "nontrivial": sig != "raises", "notes": notes}
